@@ -177,7 +177,14 @@ func (w *World) Dialer() func(ctx context.Context) (net.Conn, error) {
 // CancelWake must be invoked when a context is canceled, to wake gated dials.
 func (w *World) CancelWake() { w.cond.Broadcast() }
 
-// Cur returns the latest connection or nil; Mu held or quiescent.
+// CurConn returns the latest connection or nil; for callers without Mu.
+func (w *World) CurConn() *Conn {
+	w.Mu.Lock()
+	defer w.Mu.Unlock()
+	return w.Cur()
+}
+
+// Cur returns the latest connection or nil; Mu held.
 func (w *World) Cur() *Conn {
 	if len(w.Conns) == 0 {
 		return nil
